@@ -30,11 +30,15 @@ namespace nmtools::index
                 at(res,0_ct) = n;
             else {
                 using element_t = meta::get_index_element_type_t<return_t>;
-                auto shape_take_impl = [&](auto i){
-                    using common_t = meta::promote_index_t<axis_t,decltype(i)>;
-                    at(res,i) = ((common_t)i == (common_t)axis) ? (element_t)n : (element_t)at(shape,i);
-                };
                 [[maybe_unused]] auto dim = len(shape);
+                // a negative axis counts from the last axis
+                nm_index_t m_axis = axis;
+                if (m_axis < 0) {
+                    m_axis += (nm_index_t)dim;
+                }
+                auto shape_take_impl = [&](auto i){
+                    at(res,i) = ((nm_index_t)i == m_axis) ? (element_t)n : (element_t)at(shape,i);
+                };
                 if constexpr (meta::is_resizable_v<return_t>)
                     res.resize(dim);
 
@@ -79,14 +83,30 @@ namespace nmtools::index
             // TODO: provide overload that already compute strides
             auto strides = compute_strides(shape);
             auto dst_i   = at(index,0);
-            auto offset  = at(indices,dst_i);
-            impl::compute_indices(res, offset, shape, strides);
+            // a negative index counts from the end (of the flattened array)
+            nm_index_t offset = at(indices,dst_i);
+            if (offset < 0) {
+                offset += (nm_index_t)product(shape);
+            }
+            impl::compute_indices(res, (nm_size_t)offset, shape, strides);
         }
         else {
+            // a negative axis counts from the last axis, a negative index from the end of that axis
+            nm_index_t m_axis = axis;
+            if (m_axis < 0) {
+                m_axis += (nm_index_t)dim;
+            }
             auto take_impl = [&](auto i){
                 auto dst_i = at(index,i);
-                using common_t = meta::promote_index_t<axis_t,decltype(i)>;
-                at(res, i) = ((common_t)i == (common_t)axis) ? at(indices,dst_i) : dst_i;
+                if ((nm_index_t)i == m_axis) {
+                    nm_index_t src_i = at(indices,dst_i);
+                    if (src_i < 0) {
+                        src_i += (nm_index_t)at(shape,i);
+                    }
+                    at(res, i) = src_i;
+                } else {
+                    at(res, i) = dst_i;
+                }
             };
             if constexpr (meta::is_fixed_index_array_v<index_t>) {
                 constexpr auto DIM = meta::len_v<index_t>;
